@@ -54,7 +54,7 @@ func c16Forbidden(id string) bool {
 }
 
 func c16NewEnv(dir string, maxA, maxB int) (*c16Env, error) {
-	node, err := cluster.NewNode(cluster.ClusterNodeConfig{
+	node, err := startNode(cluster.ClusterNodeConfig{
 		RootDir:            dir,
 		RpcHost:            "localhost",
 		RpcPort:            21600,
